@@ -525,6 +525,8 @@ class NP:
             return r
         return _np.amin(x, **k)
     def amax(self, x, **k):
+        if type(x).__name__ == "PVals":
+            return x.max()
         if _has_sym(x):
             a = obj(x).ravel()
             r = a[0]
